@@ -201,9 +201,11 @@ def allowedShapes : List (String × List (List String)) :=
     ("open",     [["R"]]),
     ("stat",     [["R"]]),
     ("statperm", [["R"]]),
-    ("chmod",    [["R"], ["R", "R"], ["R", "R", "W"]]),   -- R,R: the name vanished before the second lookup
-    ("chown",    [["R"]]),
-    ("chtimes",  [["R"], ["R", "W"]]) ]
+    -- (as repaired: the metadata calls look the file up and change it in ONE write-locked section; the unchanged
+    -- code found the file in a read section and changed it later, which a Rename in between made visible)
+    ("chmod",    [["W"]]),
+    ("chown",    [["W"]]),
+    ("chtimes",  [["W"]]) ]
 
 /-- file-mutex sections ("F") of each handle method (handle methods never touch mu): every I/O
     method does its whole read-modify-write of the shared bytes in ONE section of the file's mutex.
